@@ -132,6 +132,17 @@ theorem parse_render_kupo_no_inline (aux : Aux) (u : UTxOModel) (hw : WellFormed
     cases dh <;> simp [kupoImage, shownHash]
   rw [this]
 
+/-- a whole Ogmios response (any number of UTxOs): the same UTxOs, in the same order, none dropped or merged -/
+theorem ogmios_v6_response (us : List UTxOModel)
+    (h : ∀ u ∈ us, WellFormed u ∧ bytesPayload u.datum = true ∧ scriptOK [1, 2, 3] u.script = true) :
+    parseList parse_ogmios_v6 (us.map render_ogmios_v6) = .ok us :=
+  parseList_map _ _ us fun u hu => parse_render_ogmios_v6 u (h u hu).1 (h u hu).2.1 (h u hu).2.2
+
+theorem ogmios_v5_response (us : List UTxOModel)
+    (h : ∀ u ∈ us, WellFormed u ∧ bytesPayload u.datum = true ∧ scriptOK [1, 2] u.script = true) :
+    parseList parse_ogmios_v5 (us.map render_ogmios_v5) = .ok us :=
+  parseList_map _ _ us fun u hu => parse_render_ogmios_v5 u (h u hu).1 (h u hu).2.1 (h u hu).2.2
+
 /-! ## the statement of the property: same reference, address, lovelace, quantity of every asset, datum, script -/
 
 theorem blockfrost_faithful (aux : Aux) (u : UTxOModel) (hw : WellFormed u) (hd : bytesPayload u.datum = true)
@@ -195,6 +206,70 @@ theorem dot_assets_any_order (es : List (Bytes × Bytes × Int))
 theorem dotSplit_spec (p n : Bytes) (hp : p.length = 28) (hn : n.length ≤ 32) :
     extractAssetInfo (dotKey p n) = .ok (p, n) := extractAssetInfo_dotKey p n hp hn
 
+/-! ## where the full statement fails on the code as it is (recorded findings)
+
+`parse_render_ogmios_v6` and `parse_render_cardano_cli` above are the proved parts (`scriptOK [1, 2, 3]` resp.
+`scriptOK [1, 2]` explicit).  With every reference-script language the service can report, the statements are
+false: the Ogmios v6 path raises `ValueError` on a native script, the cardano-cli path hands a Plutus v3 text
+envelope to `NativeScript.from_dict` (`KeyError`). -/
+
+/-- an ADA-only UTxO carrying a native reference script -/
+def nativeWitness : UTxOModel :=
+  { txId := List.replicate 32 0xab, index := 0, address := "addr_test1vqqszqgp", coin := 2000000, ma := [],
+    datumHash := none, datum := none,
+    script := some ⟨0, .json (.obj [("type", .str "sig"), ("keyHash", .str "33")])⟩ }
+
+/-- an ADA-only UTxO carrying a Plutus v3 reference script -/
+def v3Witness : UTxOModel :=
+  { txId := List.replicate 32 0xab, index := 0, address := "addr_test1vqqszqgp", coin := 2000000, ma := [],
+    datumHash := none, datum := none, script := some ⟨3, .bytes [0x46, 1, 0, 0, 0x22, 0x24, 0x99]⟩ }
+
+def parse_render_ogmios_v6_goal : Prop :=
+  ∀ u : UTxOModel, WellFormed u → bytesPayload u.datum = true → scriptOK [0, 1, 2, 3] u.script = true →
+    parse_ogmios_v6 (render_ogmios_v6 u) = .ok u
+
+theorem parse_render_ogmios_v6_counterexample : ¬ parse_render_ogmios_v6_goal := by
+  intro h
+  have h1 := h nativeWitness (by decide) (by decide) (by decide)
+  have h2 : parse_ogmios_v6 (render_ogmios_v6 nativeWitness) = .error .value := by rfl
+  rw [h2] at h1
+  cases h1
+
+def parse_render_cardano_cli_goal : Prop :=
+  ∀ (aux : Aux) (u : UTxOModel), WellFormed u → jsonPayload u.datum = true → scriptOK [1, 2, 3] u.script = true →
+    aux.inlineHash.length = 32 →
+    parse_cardano_cli (render_cardano_cli aux u).1 (render_cardano_cli aux u).2 = .ok u
+
+theorem parse_render_cardano_cli_counterexample : ¬ parse_render_cardano_cli_goal := by
+  intro h
+  have h1 := h ⟨List.replicate 32 0, List.replicate 28 0⟩ v3Witness (by decide) (by decide) (by decide) (by decide)
+  have h2 : parse_cardano_cli (render_cardano_cli ⟨List.replicate 32 0, List.replicate 28 0⟩ v3Witness).1
+      (render_cardano_cli ⟨List.replicate 32 0, List.replicate 28 0⟩ v3Witness).2 = .error .key := by
+    simp only [parse_cardano_cli, render_cardano_cli, cliTxIn_render v3Witness (by decide), ok_bind]
+    rfl
+  rw [h2] at h1
+  cases h1
+
+/-- Kupo lists an inline datum by its hash with `datum_type = "inline"`; the adapter does not consult
+`datum_type`, so the UTxO it returns carries the inline datum AND that hash as `datum_hash`, which the reported
+output does not have. -/
+theorem kupo_inline_datum_gets_datum_hash (aux : Aux) (u : UTxOModel) (hw : WellFormed u)
+    (hd : bytesPayload u.datum = true) (hs : scriptOK [1, 2, 3] u.script = true) (ha : aux.scriptHash.length = 28)
+    (hi : u.datum.isSome → aux.inlineHash.length = 32) (hne : u.datum ≠ some (.bytes aux.inlineHash))
+    (hin : u.datum.isSome) :
+    ∃ u', parse_kupo u.address (render_kupo aux u).2 (render_kupo aux u).1 = .ok (some u') ∧
+      u'.datum = u.datum ∧ u.datumHash = none ∧ u'.datumHash = some aux.inlineHash := by
+  refine ⟨kupoImage aux u, parse_render_kupo aux u hw hd hs ha hi hne, rfl, ?_, ?_⟩
+  · rcases hw.2.2.2.2.2.2 with h | h
+    · simpa using h
+    · rw [Option.isNone_iff_eq_none] at h; simp [h] at hin
+  · have hdh : u.datumHash = none := by
+      rcases hw.2.2.2.2.2.2 with h | h
+      · simpa using h
+      · rw [Option.isNone_iff_eq_none] at h; simp [h] at hin
+    obtain ⟨d, hd'⟩ := Option.isSome_iff_exists.1 hin
+    simp [kupoImage, shownHash, hdh, hd']
+
 /-! ## non-vacuity -/
 
 /-- a concrete UTxO with three assets over two policies — the empty name and two names under one policy — and a
@@ -232,3 +307,8 @@ end Pyc.C20
 #print axioms Pyc.C20.dot_assets_any_order
 #print axioms Pyc.C20.dotSplit_spec
 #print axioms Pyc.C20.Same.refl
+#print axioms Pyc.C20.ogmios_v6_response
+#print axioms Pyc.C20.ogmios_v5_response
+#print axioms Pyc.C20.parse_render_ogmios_v6_counterexample
+#print axioms Pyc.C20.parse_render_cardano_cli_counterexample
+#print axioms Pyc.C20.kupo_inline_datum_gets_datum_hash
